@@ -194,6 +194,10 @@ func (c *Coder) DecodeHeader(data []byte, h *MessageHeader) (int, error) {
 		extLen := binary.BigEndian.Uint32(data)
 		data = data[4:]
 		hdrOff += 4
+		if uint64(extLen) > uint64(messageMaxLen) {
+			// the total length is kept in uint32: a longer frame would wrap around
+			return -1, message.ErrInvalidEncoding
+		}
 		opLen = MessageLength15Base + int(extLen)
 	}
 
